@@ -18,7 +18,7 @@ META = {
     "outside": "zlib itself (FFI, replaced by an uninterpreted function); chunk extensions and trailers; malformed bodies",
     "assumptions": ["reference: RFC 9112 chunked-body grammar applied to the unsegmented stream"],
 }
-WALL_BUDGET = {"quick": 480, "thorough": 3000}
+WALL_BUDGET = {"quick": 900, "thorough": 3000}
 ENC = {0: 1, 2: 1 | 2, 4: 1 | 4, 8: 1 | 8}
 
 
